@@ -8,15 +8,24 @@
     branch of Molecule.__init__; the translator also pins that orient_molecule is Molecule(orient=True, **self.dict()) and that
     from_data / from_file / get_fragment only pass `orient` on).
     1. every interatomic distance preserved ............ C16_isometry (all atoms counts, all masses, any field; internal result).
-                                                         Stored: only up to the 8-decimal rounding - oracle (1e-7), no theorem.
+                                                         Stored: C16_stored_isometry_within_rounding (every distance of the stored
+                                                         molecule is the original one up to 2 sqrt 3 (0.5e-8 + 5^-9) ~ 1.8e-6, the
+                                                         5^-9 being float_prep's zero flip), C16_stored_distance_where_visible (up to
+                                                         2 sqrt 3 * 0.5e-8 ~ 1.8e-8 between atoms none of whose coordinates is
+                                                         flushed); the oracle checks 1e-7 (+1.6e-6 where the flip is active).
     2. all non-geometric fields preserved .............. masses: C16_masses_untouched.  Other fields do not occur in the model: the
                                                          translator fails unless only self.geometry / self.masses are consulted and
                                                          orient_molecule hands every field to the constructor; the oracle compares
                                                          every field of Molecule.dict() on each case (correspondence/oracle only).
     3. centre of mass at the origin .................... C16_com_at_origin (total mass <> 0; individual masses arbitrary, so ghost
-                                                         atoms - which keep their masses - and isotopes are covered).
+                                                         atoms - which keep their masses - and isotopes are covered).  Stored:
+                                                         C16_stored_com_within_rounding (each component of sum m_i x_i is at most
+                                                         (0.5e-8 + 5^-9) sum |m_i|; the oracle checks 6e-7 on the centre of mass).
     4. inertia tensor diagonal, moments ascending ...... C16_inertia_transforms, C16_inertia_diagonal_ascending (tensor generated
-                                                         from Molecule._inertial_tensor; eigh constrained only by eigh_ok).
+                                                         from Molecule._inertial_tensor; eigh constrained only by eigh_ok).  Stored:
+                                                         C16_stored_inertia_offdiagonal_within_rounding (off-diagonal entries at most
+                                                         (0.5e-8 + 5^-9) sum |m_i| (|u_i| + |v_i| + 0.5e-8 + 5^-9)); the ascending
+                                                         order of the stored diagonal is oracle only (1e-6 relative).
     5. sign convention (first atom off each plane > 0) . internal result: C16_phase_convention, C16_phase_convention_orient, with
                                                          "off the plane" = |coordinate| >= 1e-8 as in the source.
                                                          Stored molecule: C16_stored_sign_convention (hypothesis: every atom listed
@@ -49,7 +58,7 @@
 From Coq Require Import List Bool ZArith Reals QArith Lra.
 Require Import QV.Common.Outcome QV.Common.Geo3 QV.Common.Geo3Facts QV.Common.Geo3Sum QV.Common.Geo3R QV.Common.Geo3Q.
 Require Import QV.Gen.Inertia QV.Model.Orient QV.Proofs.Orient QV.Proofs.OrientR QV.Proofs.OrientUniq QV.Proofs.OrientGen QV.Proofs.OrientDeg.
-Require Import QV.Common.Geo3Loop QV.Gen.OrientBody QV.Gen.OrientStore QV.Model.OrientCheck QV.Proofs.OrientStore.
+Require Import QV.Common.Geo3Loop QV.Gen.OrientBody QV.Gen.OrientStore QV.Model.OrientCheck QV.Proofs.OrientStore QV.Proofs.OrientStoreDist.
 Import ListNotations.
 
 (** * Part A: any field *)
@@ -312,6 +321,49 @@ Theorem C16_stored_sign_convention_flush_zone_refuted : forall (np_around : Z ->
                 /\ float_prep_entry_gen RK np_around geometry_noise_exp v < 0.
 Proof. exact stored_sign_convention_flush_zone_refuted. Qed.
 
+(** clause 1 on the STORED molecule (default geometry_noise): it is one map g applied to the original positions in the original
+    order, and every interatomic distance differs from the original one by at most 2 sqrt 3 (0.5e-8 + 5^-9) *)
+Theorem C16_stored_isometry_within_rounding : forall (np_around : Z -> R -> R), around_ok (np_around geometry_noise_exp) ->
+  forall eigh (atoms : list (watom RK)) (s : list (vec3 RK)),
+  orient_stored_gen RK eigh np_around geometry_noise_exp (map fst atoms) (map snd atoms) = Ok s ->
+  eigh_ok RK (inertia_tensor RK (centre RK atoms)) (eigh (inertia_tensor RK (centre RK atoms))) ->
+  exists g, s = map g (map fst atoms)
+            /\ forall p q, Rabs (vnorm (vsub (g p) (g q)) - vnorm (vsub p q)) <= 2 * sqrt 3 * (noise RK / 2 + / 1953125).
+Proof. exact stored_isometry_within_rounding. Qed.
+
+(** between two atoms none of whose six coordinates is flushed to 0.0, only the 8-decimal rounding remains: 2 sqrt 3 * 0.5e-8 *)
+Theorem C16_stored_distance_where_visible : forall (np_around : Z -> R -> R), around_ok (np_around geometry_noise_exp) ->
+  forall p q : vec3 RK,
+  let st := float_prep_entry_gen RK np_around geometry_noise_exp in
+  (forall c, In c [vx p; vy p; vz p; vx q; vy q; vz q] -> st c <> 0) ->
+  Rabs (vnorm (vsub (@vmap RK st p) (@vmap RK st q)) - vnorm (vsub p q)) <= 2 * sqrt 3 * (noise RK / 2).
+Proof. exact stored_distance_visible. Qed.
+
+(** clause 3 on the STORED molecule: each component of sum m_i x_i is at most (0.5e-8 + 5^-9) sum |m_i| in magnitude *)
+Theorem C16_stored_com_within_rounding : forall (np_around : Z -> R -> R), around_ok (np_around geometry_noise_exp) ->
+  forall eigh (atoms r : list (watom RK)),
+  orient_atoms RK eigh atoms = Ok r -> total_mass RK atoms <> 0 ->
+  let st := float_prep_entry_gen RK np_around geometry_noise_exp in
+  let stored := map (fun a => (@vmap RK st (fst a), snd a)) r in
+  let bound := (noise RK / 2 + / 1953125) * fsum RK (map (fun a => Rabs (snd a)) atoms) in
+  Rabs (vx (wsum RK stored)) <= bound /\ Rabs (vy (wsum RK stored)) <= bound /\ Rabs (vz (wsum RK stored)) <= bound.
+Proof. exact stored_com_within_rounding. Qed.
+
+(** clause 4 on the STORED molecule: the off-diagonal entries of its inertia tensor (generated from Molecule._inertial_tensor) are at
+    most d sum |m_i| (|u_i| + |v_i| + d) in magnitude, d = 0.5e-8 + 5^-9, u_i and v_i the two coordinates involved of atom i in the
+    internal result (whose tensor is exactly diagonal: C16_inertia_diagonal_ascending); the tensor stays symmetric *)
+Theorem C16_stored_inertia_offdiagonal_within_rounding : forall (np_around : Z -> R -> R), around_ok (np_around geometry_noise_exp) ->
+  forall eigh (atoms r : list (watom RK)),
+  orient_atoms RK eigh atoms = Ok r ->
+  eigh_ok RK (inertia_tensor RK (centre RK atoms)) (eigh (inertia_tensor RK (centre RK atoms))) ->
+  let st := float_prep_entry_gen RK np_around geometry_noise_exp in
+  let stored := map (fun a => (@vmap RK st (fst a), snd a)) r in
+  let d := noise RK / 2 + / 1953125 in
+  let bound (p1 p2 : vec3 RK -> R) := d * fsum RK (map (fun a => Rabs (snd a) * (Rabs (p1 (fst a)) + Rabs (p2 (fst a)) + d)) r) in
+  Rabs (it_0_1 RK stored) <= bound vx vy /\ Rabs (it_0_2 RK stored) <= bound vx vz /\ Rabs (it_1_2 RK stored) <= bound vy vz
+  /\ it_1_0 RK stored = it_0_1 RK stored /\ it_2_0 RK stored = it_0_2 RK stored /\ it_2_1 RK stored = it_1_2 RK stored.
+Proof. exact stored_inertia_offdiagonal_within_rounding. Qed.
+
 (** orienting twice, any moments: the second internal result is the first turned by one orthogonal matrix commuting with the spectrum *)
 Theorem C16_orient_twice_up_to_eigenspace : forall eigh1 eigh2 (atoms r1 r2 : list (watom RK)),
   total_mass RK atoms <> 0 ->
@@ -353,4 +405,8 @@ Print Assumptions C16_generated_store_is_model.
 Print Assumptions C16_stored_sign_convention.
 Print Assumptions C16_stored_first_nonzero_positive.
 Print Assumptions C16_stored_sign_convention_flush_zone_refuted.
+Print Assumptions C16_stored_isometry_within_rounding.
+Print Assumptions C16_stored_distance_where_visible.
+Print Assumptions C16_stored_com_within_rounding.
+Print Assumptions C16_stored_inertia_offdiagonal_within_rounding.
 Print Assumptions C16_orient_twice_up_to_eigenspace.
